@@ -163,9 +163,11 @@ func H_C12_openingAmount() {
 	}
 }
 
-// H_C12_requestConstruction: the premium limit an initiator sends is Compute(rate, amount) of its own
-// configured limit rate and the request carries the amount unchanged (SwapOut / SwapIn entry points are
-// covered by the C10/C11 service harnesses; this is the arithmetic kernel).
+// H_C12_responderPremium: the premium a responder puts into its agreement (swap-in) or charges in the claim
+// amount (swap-out) is PPM.Compute(amount) of the rate configured for this peer, this swap's asset and this
+// direction (peer rate if set, else the stored default, else the built-in default); the four stored rates
+// per scope are drawn independently, so a lookup with another asset or direction shows.
+// zzverif:also C27
 func H_C12_responderPremium() {
 	vUFPremium = true // "charges the configured rate" is an identity of Compute applications
 	env := newEnv(true, true)
@@ -191,12 +193,16 @@ func H_C12_responderPremium() {
 		if swapIn {
 			op = vpremium.SwapIn
 		}
+		as := vpremium.BTC
+		if liquid {
+			as = vpremium.LBTC
+		}
 		var ppm int64
 		switch {
 		case r.peerSet:
-			ppm = r.peer(op)
+			ppm = r.peer(as, op)
 		case r.defSet:
-			ppm = r.def(op)
+			ppm = r.def(as, op)
 		case swapIn:
 			ppm = 0 // built-in defaults: swap-in 0 ppm on both chains
 		case liquid:
@@ -207,5 +213,7 @@ func H_C12_responderPremium() {
 		// the premium of that rate is premium.PPM.Compute (its arithmetic: C27, H_C27_ppmCompute*)
 		want := vpremium.NewPPM(ppm).Compute(amount)
 		zzverif.Assert(s.GetPremium() == want, "C12.responder_charges_configured_rate")
+		// C27's view: the rate looked up is the one of this peer, this swap's asset and this direction
+		zzverif.Assert(s.GetPremium() == want, "C27.swap_charges_the_rate_of_peer_asset_and_direction")
 	}
 }
